@@ -25,7 +25,7 @@ var R = hx.NewRecorder("C15", "cases = (endpoint kind: GMSSL client | GMSSL-only
 	"oracle = Handshake() returns (quiescence of the in-memory transport turns waiting into EOF; a read-after-EOF counter catches spinning), returns an error for every true deviation, HandshakeComplete stays false, no panic; legal variations (fragmented or coalesced messages, unknown ticket) must still succeed; non-trivial = deviation applied after at least one valid message or in the first message; distinct by hash of the plan")
 
 func TestMain(m *testing.M) {
-	R.Require("junk_certificate_verify", "jcv_vers:300", "ecdhe_ske", "hello_ext_sweep", "dev:big_record", "replay_deep:gmclient", "replay_deep:tlsclient", "replay_deep:gmserver", "replay_deep:tlsserver", "replay_deep:autoserver", "replay_control", "replay:omit_msg", "replay:hello_ext", "replay:swap_msgs", "hello_vector_lengths", "dev:cke_ciphertext_byte", "dev:cert_list", "omitted_client_certificate", "fallback_scsv", "tls_scripted_server:control", "tls_scripted_server:version_above_offer", "tls_scripted_server:deviations", "short_messages_after_hello", "serverhello_version_sweep", "tls_resumption_deviation", "dev:inner_len", "dev:trailing", "dev:alert_flood", "inner_length_sweep", "peer_pressed_on_after_alert", "endpoint:gmclient", "endpoint:gmserver", "endpoint:autoserver", "endpoint:tlsserver", "endpoint:tlsclient", "vers_sweep_done", "dev:omit", "dev:repeat", "dev:retype", "dev:reorder", "dev:truncate", "dev:len_field", "dev:split", "dev:coalesce",
+	R.Require("client_stops_after_cke", "cke_sent_at:0300", "cke_sent_at:0301", "cke_sent_at:0302", "cke_sent_at:0303", "junk_certificate_verify", "jcv_vers:300", "ecdhe_ske", "hello_ext_sweep", "dev:big_record", "replay_deep:gmclient", "replay_deep:tlsclient", "replay_deep:gmserver", "replay_deep:tlsserver", "replay_deep:autoserver", "replay_control", "replay:omit_msg", "replay:hello_ext", "replay:swap_msgs", "hello_vector_lengths", "dev:cke_ciphertext_byte", "dev:cert_list", "omitted_client_certificate", "fallback_scsv", "tls_scripted_server:control", "tls_scripted_server:version_above_offer", "tls_scripted_server:deviations", "short_messages_after_hello", "serverhello_version_sweep", "tls_resumption_deviation", "dev:inner_len", "dev:trailing", "dev:alert_flood", "inner_length_sweep", "peer_pressed_on_after_alert", "endpoint:gmclient", "endpoint:gmserver", "endpoint:autoserver", "endpoint:tlsserver", "endpoint:tlsclient", "vers_sweep_done", "dev:omit", "dev:repeat", "dev:retype", "dev:reorder", "dev:truncate", "dev:len_field", "dev:split", "dev:coalesce",
 		"dev:oversize", "dev:ccs_early", "dev:appdata_early", "dev:alert_fatal", "dev:unknown_record", "dev:close", "dev:record_overflow", "replay_perturbed", "legal_must_succeed", "cke_1byte", "hostile_suites")
 	for d := 0; d <= 5; d++ {
 		R.Require(fmt.Sprintf("depth:%d", d))
@@ -1874,4 +1874,60 @@ func TestC15_JunkCertificateVerify(t *testing.T) {
 			}
 		}
 	}
+}
+
+// A client that stops after a WELL-FORMED ClientKeyExchange: every protocol version SSL 3.0 .. TLS 1.2 x every RSA and
+// ECDHE-RSA cipher suite id of the registry range the library draws from, against the TLS-only and the auto-switch
+// server. The pre-master secret is genuinely encrypted under the server's key (or a genuine P-256 point is sent), so the
+// server derives the master secret and the key block of whatever it negotiated - and then the stream ends. It must
+// return an error: not completion, not a panic, not a wait for more.
+func TestC15_ClientStopsAfterKeyExchange(t *testing.T) {
+	p := tlsx.GetPKI()
+	n := 0
+	reached := 0
+	rsaSuites := []uint16{0x0005, 0x000a, 0x002f, 0x0035, 0x003c, 0x009c, 0x009d}
+	ecdheSuites := []uint16{0xc011, 0xc012, 0xc013, 0xc014, 0xc027, 0xc02f, 0xc030, 0xcca8}
+	for _, mode := range []string{"tlsserver_rsa", "autoserver_rsa"} {
+		for _, vers := range []uint16{0x0300, 0x0301, 0x0302, 0x0303} {
+			for si, suite := range append(append([]uint16{}, rsaSuites...), ecdheSuites...) {
+				n++
+				var sc *gmtls.Config
+				if mode == "tlsserver_rsa" {
+					sc = tlsx.TLSServer(p, p.RSASrv, fmt.Sprint("cske", n))
+				} else {
+					sc = tlsx.AutoServer(p, p.RSASrv, fmt.Sprint("cske", n))
+				}
+				sc.CipherSuites = []uint16{suite}
+				var pr *rgmssl.TLSPartialResult
+				r := tlsx.RunServerAgainst(sc, []byte("y"), func(rw *wire.Conn) error {
+					var err error
+					pr, err = rgmssl.PartialTLSClient(rw, rgmssl.TLSPartialOpts{Version: vers, Suite: suite, Random: fill32(uint64(n)), ECDHE: si >= len(rsaSuites)})
+					return err
+				})
+				desc := fmt.Sprintf("%s, client at version %04x with suite %04x sends a genuine ClientKeyExchange and closes | server: hs=%v | scripted client: err=%v log=%v", mode, vers, suite, r.GM.HSErr, r.PeerErr, pr.Log)
+				if r.GM.Panic != nil {
+					t.Fatalf("the server PANICKED: %v\n%s\n%s", r.GM.Panic.Val, r.GM.Panic.Stack, desc)
+				}
+				if r.PeerPanic != nil {
+					t.Fatalf("harness: scripted client panicked: %v\n%s", r.PeerPanic.Val, r.PeerPanic.Stack)
+				}
+				if r.Stalled || r.Spin {
+					t.Fatalf("the server keeps waiting although the stream has ended\n%s", desc)
+				}
+				if r.GM.HSErr == nil {
+					t.Fatalf("the server reported the handshake COMPLETE although the client stopped after its key exchange\n%s", desc)
+				}
+				cl := []string{"client_stops_after_cke", "endpoint:" + mode}
+				if pr.SentCKE {
+					reached++
+					cl = append(cl, fmt.Sprintf("cke_sent_at:%04x", pr.ServerVers))
+				}
+				R.Case(true, hx.HashKey("cske", mode, vers, suite), cl...)
+			}
+		}
+	}
+	if reached < 40 {
+		t.Fatalf("harness: only %d of %d scripted clients got as far as their ClientKeyExchange", reached, n)
+	}
+	R.Subspace("versions SSL 3.0..TLS 1.2 x 15 RSA / ECDHE-RSA suites x {TLS-only, auto-switch} server, client stops after a genuine ClientKeyExchange", int64(n), true)
 }
